@@ -14,9 +14,22 @@ func TestVPReplay(t *testing.T) {
 	if paths == "" {
 		t.Skip("VP_REPLAY not set")
 	}
+	repeat := 1
+	if os.Getenv("VP_REPEAT") != "" {
+		fmt.Sscan(os.Getenv("VP_REPEAT"), &repeat)
+	}
 	for _, path := range strings.Split(paths, ":") {
 		fmt.Printf("VPFILE %s\n", path)
-		fails, outcome := vpRunReplay(path)
+		var fails []string
+		var outcome string
+		// behaviour that depends on Go's randomised map order (or on scheduling)
+		// cannot be forced natively: such inputs are replayed repeatedly
+		for k := 0; k < repeat; k++ {
+			fails, outcome = vpRunReplay(path)
+			if len(fails) > 0 {
+				break
+			}
+		}
 		fmt.Printf("VPOUTCOME %s\n", outcome)
 		for _, f := range fails {
 			fmt.Printf("VPFAIL %s\n", f)
